@@ -8,6 +8,7 @@ pub mod c05;
 pub mod c06;
 pub mod c07;
 pub mod c08;
+pub mod c09;
 pub mod c11;
 pub mod c12;
 pub mod c14;
@@ -35,6 +36,7 @@ pub fn registry() -> &'static [Check] {
         Check { meta: &c06::META, run: c06::run, shards: (16, 16) },
         Check { meta: &c07::META, run: c07::run, shards: (16, 16) },
         Check { meta: &c08::META, run: c08::run, shards: (16, 16) },
+        Check { meta: &c09::META, run: c09::run, shards: (16, 16) },
         Check { meta: &c11::META, run: c11::run, shards: (16, 16) },
         Check { meta: &c12::META, run: c12::run, shards: (16, 16) },
         Check { meta: &c14::META, run: c14::run, shards: (16, 16) },
